@@ -1,0 +1,12 @@
+//go:build verif
+
+// Contracts for the verification machinery in /verif (comment-only, built only with -tags verif).
+
+package community
+
+// CommLess: the order LessThan implements on communities (assumed to be a strict weak order; not verified here).
+//@ ufun CommLess(BGPCommunity, BGPCommunity) bool
+//@ func (BGPCommunity).LessThan
+//@   pure
+//@   trusted
+//@   ensures result == CommLess(self, arg0)
